@@ -1,5 +1,5 @@
 CONSTANTS
-  Fam = "mac"
+  Fam = "if"
   NM = 1
   KindSet = {"obj", "f0", "f1", "f2", "fv", "f1v"}
   MaxBody = 3
@@ -14,9 +14,9 @@ CONSTANTS
   MaxNest = 1
   CondSet = {"0"}
   LineSet = {"endif"}
-  MaxD = 0
-  AtomSet = {"0"}
-  OpSet = {"+"}
+  MaxD = 1
+  AtomSet = {"0", "1", "m1", "2", "63", "64", "imax", "imin", "umax", "p31", "p32m", "p63x", "0u", "1u", "63u", "defD", "U", "E"}
+  OpSet = {"u-", "u~", "u!", "u+", "*", "/", "%", "+", "-", "<<", ">>", "<", "<=", ">", ">=", "==", "!=", "&", "^", "|", "&&", "||", "?:"}
 INIT Init
 NEXT Next
 INVARIANT EmitInv
